@@ -666,13 +666,18 @@ func genBody(r *RNG, o genOpts) (body []string, hasEqu, hasGlobal bool) {
 			if strings.HasPrefix(val, n+"+") || strings.HasPrefix(val, n+"-") {
 				val = fmt.Sprintf("0x%04x", r.Intn(0x10000)) // no self reference
 			}
+		case r.Chance(1, 6) && len(equNames) > 1: // a bare alias of another EQU name, defined before or after this line
+			val = pick(r, equNames)
+			if val == n {
+				val = fmt.Sprintf("0x%04x", r.Intn(0x10000))
+			}
 		case r.Chance(1, 5):
 			val = fmt.Sprintf("(%d+%d)*%d-%d", r.Intn(9), r.Intn(9), r.Range(1, 5), r.Intn(9))
 		default:
 			val = fmt.Sprintf("0x%04x", r.Intn(0x10000))
 		}
 		line := n + "\tEQU\t" + val
-		if r.Chance(1, 6) {
+		if r.Chance(1, 4) {
 			lateEqus = append(lateEqus, line)
 		} else {
 			body = append(body, line)
@@ -757,6 +762,9 @@ func genBody(r *RNG, o genOpts) (body []string, hasEqu, hasGlobal bool) {
 	for i := 0; i < o.Undefined; i++ {
 		globals = append(globals, g.newName()+"_undef")
 	}
+	if len(g.equs) > 0 && len(globals) > 0 && r.Chance(1, 4) {
+		globals = append(globals, pick(r, g.equs)) // a GLOBAL that names an EQU constant
+	}
 	if len(globals) > 1 && r.Chance(1, 5) {
 		globals = append(globals, globals[0]) // duplicate declaration
 	}
@@ -833,6 +841,26 @@ func genBody(r *RNG, o genOpts) (body []string, hasEqu, hasGlobal bool) {
 		body = append(body, "\t"+pick(r, []string{"JMP", "JE", "JNZ", "CALL"})+"\t"+t)
 	}
 	body = append(body, lateEqus...)
+	if r.Chance(1, 4) {
+		// use -> alias -> target: a constant used before the EQU that defines it, which is itself a bare
+		// alias of an EQU defined even later (chains of 1-3 aliases)
+		depth := r.Range(1, 3)
+		names := make([]string, depth+1)
+		for i := range names {
+			names[i] = strings.ToUpper(g.newName())
+			g.used[names[i]] = true
+		}
+		use := []string{"\tMOV\t" + pick(r, regs16) + "," + names[0], "\tMOV\t" + pick(r, regs16) + "," + names[0], "\tPUSH\t" + names[0], "\tMOV\tBX," + names[0] + "+1", "\tMOV\t" + pick(r, regs32) + "," + names[0]}
+		for k, m := 0, r.Range(1, 3); k < m; k++ {
+			at := r.Intn(len(body) + 1)
+			body = append(body[:at:at], append([]string{pick(r, use)}, body[at:]...)...)
+		}
+		for i := 0; i < depth; i++ {
+			body = append(body, names[i]+"\tEQU\t"+names[i+1])
+		}
+		body = append(body, names[depth]+"\tEQU\t"+fmt.Sprintf("0x%03x", r.Intn(0x1000)))
+		hasEqu = true
+	}
 	return
 }
 
